@@ -588,6 +588,42 @@ func TestCheck(t *testing.T) {
 			c.SetExhaustive("length_sweep", false)
 		}
 
+		// every character value inside otherwise numeric / alphanumeric text: the mode-selection
+		// tables must classify each of them correctly, or the text comes back changed
+		{
+			idx := 0
+			for v := 0; v < 0x180; v++ {
+				for _, shape := range []string{"AB%sCD", "12%s34", "%s", "%s%s", "A%s"} {
+					for _, level := range []int{0, 3} {
+						idx++
+						if !c.Mine(idx) {
+							continue
+						}
+						text := strings.ReplaceAll(shape, "%s", string(rune(v)))
+						cs := Case{Text: text, Level: level, MHint: -1, Image: idx%4 == 0}
+						if _, n, _, ok := encodedLen(cs.Text, cs.Charset); !ok || n == 0 {
+							continue
+						}
+						raw, _ := json.Marshal(cs)
+						cl := "other"
+						switch {
+						case v >= '0' && v <= '9':
+							cl = "digit"
+						case strings.ContainsRune(qrx.AlnumChars, rune(v)):
+							cl = "alphanumeric"
+						case v < 0x80:
+							cl = "ascii_outside_the_45"
+						}
+						c.Note("mode_tables_all_chars", cl, true, hx.Hash(raw), func() any { return cs })
+						if !c.Enum("mode_tables_all_chars", "qr_roundtrip", cs, nil) {
+							break
+						}
+					}
+				}
+			}
+			c.SetExhaustive("mode_tables_all_chars", true)
+		}
+
 		c.Rapid("instance_histories", c.N(150, 3000), func(t *rapid.T) {
 			var h History
 			n := rapid.IntRange(2, 4).Draw(t, "steps")
